@@ -29,6 +29,8 @@ def applicable(prog, lang) -> bool:
         if k == "K":
             if not tr["cls"]:
                 return False
+            if it["v"] == "wrapped" and lang not in ("Java", "JavaScript", "TypeScript"):
+                return False  # anonymous classes with methods as call arguments
             if st and not tr["cls_in_func"]:
                 return False
         if k == "A" and not tr["anon"]:
@@ -93,7 +95,7 @@ def render(prog, lang, layout=0):
         if k == "F":
             fcount += 1
             name = f"{fnm}{fcount}"
-            incls = bool(stack) and stack[-1][0] == "K"
+            incls = bool(stack) and stack[-1][0] in ("K", "Kw")
             base = W * ind
             rec = dict(item=idx, name=name, start_line=len(out) + 1, alt_start_col=None)
             if v == "lineabove":
@@ -170,6 +172,12 @@ def render(prog, lang, layout=0):
             stack.append(("F", rec))
             mark_end()
             ind += 1
+        elif k == "K" and v == "wrapped":
+            wcount = sum(1 for x in out if "wrap(" in x) + 1
+            L(f"Object h{wcount} = wrap(new Object() {{" if lang == "Java" else f"wrap(class {{")
+            stack.append(("Kw", None))
+            mark_end()
+            ind += 1
         elif k == "K":
             L({"Python": "class K:", "C++": "struct K {"}.get(lang, "class K {"))
             stack.append(("K", None))
@@ -204,7 +212,7 @@ def render(prog, lang, layout=0):
             if not py:
                 if t == "F" and rec.get("variant") == "arrow":
                     L("};")
-                elif t == "A":
+                elif t == "A" or t == "Kw":
                     L("};" if lang == "C++" else "});")
                 elif t == "K" and lang == "C++":
                     L("};")
